@@ -1474,21 +1474,6 @@ pub fn run(args: &Args, prop: &'static str) -> Report {
             }
         }
     }
-    // family pair: upper x one lower, every single operation (thorough: every pair of operations on a subset)
-    for (ui, u) in uppers.iter().enumerate() {
-        for (li, l) in lowers.iter().enumerate() {
-            // C11 quick: every third stack (the restart doubles the cost); C10 and thorough: all
-            if prop == "C11" && !thorough && (ui + li) % 3 != 0 {
-                continue;
-            }
-            let stack = Stack { upper: Some(u.clone()), lowers: vec![l.clone()] };
-            if run.rep.mine(idx) && !run.rep.over_budget() {
-                let mut seq = Vec::new();
-                run.rec("pair", &stack, &mut seq, &small_ops, 1);
-            }
-            idx += 1;
-        }
-    }
     // family pair-cold (C10): the first operation arrives before the client has looked anything up; names are learned
     // through READDIRPLUS only (as after `ls -l`), so nothing was loaded by an earlier LOOKUP
     if prop == "C10" {
@@ -1506,6 +1491,21 @@ pub fn run(args: &Args, prop: &'static str) -> Report {
                     idx += 1;
                 }
             }
+        }
+    }
+    // family pair: upper x one lower, every single operation (thorough: every pair of operations on a subset)
+    for (ui, u) in uppers.iter().enumerate() {
+        for (li, l) in lowers.iter().enumerate() {
+            // C11 quick: every third stack (the restart doubles the cost); C10 and thorough: all
+            if prop == "C11" && !thorough && (ui + li) % 3 != 0 {
+                continue;
+            }
+            let stack = Stack { upper: Some(u.clone()), lowers: vec![l.clone()] };
+            if run.rep.mine(idx) && !run.rep.over_budget() {
+                let mut seq = Vec::new();
+                run.rec("pair", &stack, &mut seq, &small_ops, 1);
+            }
+            idx += 1;
         }
     }
     // thorough: two lowers in full, pairs of operations on the pair family
